@@ -4,6 +4,8 @@ CONFIGS = {
     "mainnet": {"tags": []},
     "testnet": {"tags": ["testnet"]},
     "unittest": {"tags": ["unittest"]},
+    # verification-only configuration supplied by the hook file config/config_verif.go (DESIGN 3.3)
+    "verifnet": {"tags": ["testnet", "unittest"]},
 }
 
 PROPS = {
@@ -14,5 +16,18 @@ PROPS = {
                 level_text="Theorems over the Gallina transcription of block/reward.go and block/coinbase.go with explicit uint64 wrap-around, for every uint64 height and every total up to max supply + one reward, parametric in the configuration (side condition discharged by vm_compute at the constants regenerated from /repo on every run). The transcription is compared with the Go functions at every phase boundary and on random heights/totals; the property predicate is also evaluated on Go's own outputs.",
                 level_note="Trusted: Coq kernel, paramdump translator, Gallina printer; the model is hand-written and tied to the code by the correspondence run (about 5 800 cases per quick run). No axioms."),
 }
+
+HIST_MODS = ["Model.Ledger", "Model.Node", "Check.Hist"]
+HIST_TB = ["harness/memdb: in-memory stand-in for LMDB (byte-ordered iteration, all-or-nothing Update)",
+           "symbolic cryptography in the model: hashes/keys/addresses are opaque identifiers renumbered by the harness; a signature is (signing key, signed message); proof-of-work values and the lottery value of a hash are inputs computed by the real code",
+           "verifnet build configuration (hook config/config_verif.go); theorems are parametric in the configuration"]
+PROPS["C01"] = dict(configs=["verifnet"], harness="ledger", family="hist", harness_procs=8, parallel=16,
+    check_mods=HIST_MODS + ["Check.C01"], corr="c01_bad_corr", prop="c01_bad_prop", trusted_extra=HIST_TB,
+    technique="Coq proof over the ledger/node model + differential correspondence on generated block-tree histories",
+    level_text="WORK IN PROGRESS", level_note="WORK IN PROGRESS")
+PROPS["C03"] = dict(configs=["verifnet"], harness="ledger", family="hist", harness_procs=8, parallel=16,
+    check_mods=HIST_MODS + ["Check.C03"], corr="c03_bad_corr", prop="c03_bad_prop", trusted_extra=HIST_TB,
+    technique="Coq proof over the ledger/node model + differential correspondence on generated block-tree histories",
+    level_text="WORK IN PROGRESS", level_note="WORK IN PROGRESS")
 
 NOT_APPLICABLE = {}
